@@ -37,6 +37,19 @@ func genCase(t *rapid.T) Case {
 			c.Msgs = append(c.Msgs, script.CMsg{K: "Q", Query: rapid.SampledFrom(keys).Draw(t, "query")})
 		}
 	}
+	if rapid.IntRange(0, 7).Draw(t, "server-close-during-last-query") == 0 {
+		// the last Query has 2..5 statements; one of them calls Server.Close somewhere between its
+		// operations: the admitted command still delivers the results of all its statements
+		k := gen.QueryNames[nq]
+		o := script.Outcome{Stmts: rapid.SliceOfN(gen.Stmt(gen.SimpleTypes, 5, 6, true), 2, 5).Draw(t, "closing-stmts")}
+		si := rapid.IntRange(0, len(o.Stmts)-1).Draw(t, "closing-stmt")
+		ops := o.Stmts[si].Ops
+		at := rapid.IntRange(0, len(ops)).Draw(t, "closing-op")
+		ops = append(ops[:at:at], append([]script.Op{{K: "closesrv"}}, ops[at:]...)...)
+		o.Stmts[si].Ops = ops
+		c.Cfg.Table.Q[k] = o
+		c.Msgs = append(c.Msgs, script.CMsg{K: "Q", Query: k})
+	}
 	return c
 }
 
